@@ -234,6 +234,7 @@ def scribble(res):
                 elif isinstance(v, bytes):
                     df.iloc[0, j] = v + b"~"
                 elif isinstance(v, list):
+                    deep_scribble(v)
                     v.append("~")
         except Exception:
             pass
@@ -247,6 +248,24 @@ def scribble(res):
         except Exception:
             pass
 
+    def deep_scribble(x, depth=0):
+        """Edits every nested mutable container reachable from x in place (dict values, list elements)."""
+        if depth > 4:
+            return
+        if isinstance(x, dict):
+            for k in list(x):
+                if isinstance(x[k], (dict, list)):
+                    deep_scribble(x[k], depth + 1)
+                elif isinstance(x[k], (int, float)) and not isinstance(x[k], bool):
+                    x[k] = x[k] + 4242
+                elif isinstance(x[k], (str, bytes)):
+                    x[k] = x[k] + type(x[k])(b"~" if isinstance(x[k], bytes) else "~")
+            x["~"] = "~"
+        elif isinstance(x, list):
+            for e in x:
+                if isinstance(e, (dict, list)):
+                    deep_scribble(e, depth + 1)
+
     def on_meta(o):
         if not dataclasses.is_dataclass(o):
             return
@@ -256,9 +275,10 @@ def scribble(res):
             v = getattr(o, f.name, None)
             try:
                 if isinstance(v, list):
+                    deep_scribble(v)
                     v.append("~")
                 elif isinstance(v, dict):
-                    v["~"] = "~"
+                    deep_scribble(v)
                 elif isinstance(v, TimedList):
                     on_list(v)
             except Exception:
